@@ -166,10 +166,7 @@ package sm2
 
 //@ func sm2.SignHashed#ct
 //@ secret priv
-//@ declassify utils.ConstantTimeCmp(K[:], nBytes[:], 32) >= 0 || utils.ConstantTimeCmp(K[:], zeroK[:], 32) == 0 : rejection of an out-of-range nonce candidate; the candidate is discarded (accept/reject verdict)
-//@ declassify utils.ConstantTimeCmp(K[:], nBytes[:], 32) >= 0 : same verdict, first half
-//@ declassify rk.IsZero() == 1 : rejection of a candidate with r + k = n; the candidate is discarded (accept/reject verdict)
-//@ declassify sS.IsZero() == 1 : s is the published signature value; s = 0 restarts with a fresh nonce (verdict)
+//@ retry_verdicts
 
 //@ func sm2.GenerateKey#ct
 //@ declassify pub.Bytes() : the affine coordinates of [d]G are the public key
